@@ -481,23 +481,24 @@ func c02Oracle(pl *c02Plan, insts []*c02Inst, ops []*c02OpRec, horizon time.Dura
 			if a.name != b.name || !(a.schedCallStep < b.schedRetStep && b.schedCallStep < a.schedRetStep) {
 				continue
 			}
-			first, second := a, b
-			if b.schedRetStep < a.schedRetStep {
-				first, second = b, a
+			// which of the two was inserted first is not observable: either may have freed the name again by
+			// starting (a job whose time has come starts at once) or by being withdrawn before the other was judged
+			lo, hi := min(a.schedCallStep, b.schedCallStep), max(a.schedRetStep, b.schedRetStep)
+			freed := a.ctxCancelled || b.ctxCancelled
+			for _, in := range []*c02Inst{a, b} {
+				if !in.periodic && len(in.invs) > 0 && in.invs[0].startStep <= hi {
+					freed = true
+				}
 			}
-			if !first.periodic && len(first.invs) > 0 && first.invs[0].startStep < second.schedRetStep {
-				continue
-			}
-			gone := false
 			for _, o := range ops {
 				switch o.op.Kind {
 				case "cancel", "cancelif", "cancelprefix", "ctxcancel", "run", "runif":
-					if sameName(o, first) && o.callStep < second.schedRetStep && o.retStep > first.schedCallStep {
-						gone = true // something may have withdrawn or started the first one in between
+					if sameName(o, a) && o.callStep <= hi && o.retStep >= lo {
+						freed = true
 					}
 				}
 			}
-			if gone || first.ctxCancelled {
+			if freed {
 				continue
 			}
 			out.Probes["overlapping-schedule-requests"]++
